@@ -196,7 +196,8 @@ def _run(spec, prop, tier, seed, replay_path, wd):
         sub = os.path.join(wd, "exh_" + docs_name)
         os.makedirs(sub)
         ex = E.exhaustive(prop, docs_name, smin, smax, spec["invariants"], sub, module="MC_Eval", init="MInit", next_="MNext",
-                          extra_consts={"MaxEvals": str(spec.get("max_evals", 1))}, doc_range=drange, safes=spec.get("safes", "{TRUE}"))
+                          extra_consts={"MaxEvals": str(spec.get("max_evals", 1))}, doc_range=drange, safes=spec.get("safes", "{TRUE}"),
+                          timeout=7200 if tier == "thorough" else 1500)
         if ex["violated"]:
             cex = ex["cex"]
             shown = ("\n".join("---\n" + S.render_doc(d) for d in cex["docs"]) + f"\nstatus={cex.get('status')}") if cex else ex["raw"]["out"][-3000:]
@@ -204,6 +205,11 @@ def _run(spec, prop, tier, seed, replay_path, wd):
         uni, behs = ex["universe"], ex["behaviours"]
         t0 = time.time()
         mism = replay(uni, behs, life)
+        if os.environ.get("VERIF_DEBUG"):
+            from collections import Counter
+            print("DEBUG mismatches", len(mism), Counter((m["want"]["status"], m["got"]["status"]) for m in mism))
+            for m in mism[:int(os.environ["VERIF_DEBUG"])]:
+                print("DEBUG", [S.render_doc(uni[i - 1]) for i in m["h"]], m["s"], "want", m["want"]["status"], "got", m["got"]["status"], m["issues"])
         replayed += len(behs)
         cov["configs"].append({"universe": docs_name, "documents": len(uni), "stages": [smin, smax], "states": ex["states"],
                                "transitions": ex["transitions"], "behaviours": len(behs), "tlc_wall_s": round(ex["wall"], 1),
